@@ -37,6 +37,7 @@ func genIdPKnobs(r *Rng) IdPKnobs {
 	if r.Chance(0.15) {
 		k.Alg = "RS256"
 	}
+	k.DiscDoc = []string{"", "", "pkce-plain-only", "pkce-both", "rich", "minimal"}[r.Intn(6)]
 	k.JWKSAlg = r.Chance(0.7)
 	k.JWKSKid = true // kid-less key sets are outside the enumerated compliant behaviours
 	return k
